@@ -41,6 +41,7 @@ func ruleResetBefore(c *Ctx, p *core.Program, rule string) {
 	c.R.Rule(rule, "in Results.DecodeResult and Results.decodeAuto, Reset() of the target column dominates DecodeState/DecodeColumn, and lies on every path from the accepted type check to the end of the iteration - also for zero-row blocks, whose targets must end up empty")
 	cfg := p.Cfg.Name
 	for _, fn := range resultDecoders(c, p) {
+		root := fn
 		// the per-column part may live in a method called for each column
 		if len(core.FindCalls(fn, isColMethod("DecodeColumn"))) == 0 {
 			for _, call := range core.Calls(fn) {
@@ -80,7 +81,7 @@ func ruleResetBefore(c *Ctx, p *core.Program, rule string) {
 			if f == nil {
 				continue
 			}
-			if core.IsMethod(f, core.PkgProto, "ColumnType", "Conflicts") || (fn.Name() == "decodeAuto" && core.IsMethod(f, core.PkgProto, "ColAuto", "Infer")) {
+			if core.IsMethod(f, core.PkgProto, "ColumnType", "Conflicts") || (root.Name() == "decodeAuto" && core.IsMethod(f, core.PkgProto, "ColAuto", "Infer")) {
 				anchor = call.(ssa.Instruction)
 			}
 		}
@@ -238,11 +239,13 @@ func runC16(c *Ctx) {
 		ruleChainScratch(c, p, "C16.chain-scratch")
 		ruleForwardUnconditional(c, p, "C16.forward-always")
 		ruleFieldBeforeUse(c, p, "C16.field-before-use")
+		ruleContentCounters(c, p, "C16.counters")
 	}
 	p := c.Prog(core.CfgDefault)
 	if p == nil {
 		return
 	}
+	ruleInferTables(c, p, "C16")
 	ruleResetBefore(c, p, "C16.before")
 	ruleDict(c, p, "C16.dict")
 	ruleRebuild(c, p, "C16.rebuild")
@@ -961,6 +964,7 @@ func runC18(c *Ctx) {
 	ruleAutoAdopts(c, p, "C18.auto-adopt")
 	ruleInferMaps(c, p, "C18.exact")
 	ruleMapInfer(c, p, "C18.mapinfer")
+	ruleInferCache(c, p, "C18.infer-cache")
 	ruleAdopt(c, p, "C18.adopt")
 	ruleInferTables(c, p, "C18")
 	c.R.Assumptions = append(c.R.Assumptions,
@@ -1795,6 +1799,49 @@ func ruleMapInfer(c *Ctx, p *core.Program, rule string) {
 	if n < 2 {
 		c.R.Unk(rule, "ColMap.Infer/population", cfg, p.Pos(inf.Pos()), sprintf("%d forwarded Infer calls found, expected keys and values", n))
 	}
+	// independence: whether the key column is Inferable decides nothing about the value column (and vice versa)
+	for _, call := range core.Calls(inf) {
+		cc := call.Common()
+		if !cc.IsInvoke() || cc.Method.Name() != "Infer" {
+			continue
+		}
+		ap := accessPath(cc.Value, 0)
+		var own string
+		switch {
+		case strings.HasPrefix(ap, "recv.Keys"):
+			own = "Keys"
+		case strings.HasPrefix(ap, "recv.Values"):
+			own = "Values"
+		default:
+			continue
+		}
+		in := call.(ssa.Instruction)
+		reach := func(from *ssa.BasicBlock) bool {
+			return len(core.ReachAvoiding(core.Point{B: from, I: -1}, func(x ssa.Instruction) bool { return x == in }, nil, nil)) > 0
+		}
+		for _, b := range inf.Blocks {
+			ifi, ok := b.Instrs[len(b.Instrs)-1].(*ssa.If)
+			if !ok {
+				continue
+			}
+			ex, ok := ifi.Cond.(*ssa.Extract)
+			if !ok {
+				continue
+			}
+			ta, ok := ex.Tuple.(*ssa.TypeAssert)
+			if !ok || !ta.CommaOk {
+				continue
+			}
+			tap := accessPath(ta.X, 0)
+			if !strings.HasPrefix(tap, "recv.") || strings.HasPrefix(tap, "recv."+own) {
+				continue
+			}
+			r0, r1 := reach(b.Succs[0]), reach(b.Succs[1])
+			if r0 != r1 {
+				c.R.Bad(rule, "ColMap.Infer/"+own+"/independent", cfg, p.Pos(ifi.Cond.Pos()), sprintf("the %s column is inferred only when %s is Inferable: with a plain key column (String, integers) the value column never receives its parameters and the map reports Map(K, DateTime64) without precision or an empty Enum", own, strings.TrimPrefix(tap, "recv.")))
+			}
+		}
+	}
 }
 
 // ruleResetReceiver (C16.reset-recv): a Reset with a value receiver clears a copy.
@@ -1859,4 +1906,98 @@ func ruleResetReceiver(c *Ctx, p *core.Program, rule string) {
 		}
 	}
 	c.R.Floor(rule, cfg, n, 12)
+}
+
+// contentCounterGaps: for column struct ct, the (method, field) pairs where DecodeColumn / Reset do not assign an
+// unexported numeric field that an Append* method of ct assigns; checked counts the pairs examined.
+func contentCounterGaps(p *core.Program, ct *types.Named) (checked int, gaps [][3]string) {
+	st, ok := ct.Underlying().(*types.Struct)
+	if !ok {
+		return 0, nil
+	}
+	writes := func(fn *ssa.Function) map[string]bool {
+		out := map[string]bool{}
+		if fn == nil || fn.Blocks == nil {
+			return out
+		}
+		for g := range core.StaticReach(fn, 2) {
+			if g.Blocks == nil || core.RecvNamed2(g) == nil || core.RecvNamed2(g).Obj() != ct.Obj() {
+				continue
+			}
+			for _, b := range g.Blocks {
+				for _, in := range b.Instrs {
+					if s, ok := in.(*ssa.Store); ok {
+						if fa, ok := s.Addr.(*ssa.FieldAddr); ok && fa.X == ssa.Value(g.Params[0]) {
+							out[fieldNameOnly(fa.X.Type(), fa.Field)] = true
+						}
+					}
+				}
+			}
+		}
+		return out
+	}
+	counters := map[string]string{}
+	ms := types.NewMethodSet(types.NewPointer(ct))
+	for i := 0; i < ms.Len(); i++ {
+		m, ok := ms.At(i).Obj().(*types.Func)
+		if !ok || !strings.HasPrefix(m.Name(), "Append") {
+			continue
+		}
+		for f := range writes(p.Prog.FuncValue(m)) {
+			for j := 0; j < st.NumFields(); j++ {
+				fld := st.Field(j)
+				if fld.Name() != f || fld.Exported() {
+					continue
+				}
+				if bt, ok := fld.Type().Underlying().(*types.Basic); ok && bt.Info()&types.IsNumeric != 0 {
+					counters[f] = m.Name()
+				}
+			}
+		}
+	}
+	var names []string
+	for f := range counters {
+		names = append(names, f)
+	}
+	sort.Strings(names)
+	for _, f := range names {
+		for _, mn := range []string{"DecodeColumn", "Reset"} {
+			fn := methodOf(p, ct, mn)
+			if fn == nil || fn.Blocks == nil {
+				continue
+			}
+			checked++
+			if !writes(fn)[f] {
+				gaps = append(gaps, [3]string{mn, f, counters[f]})
+			}
+		}
+	}
+	return checked, gaps
+}
+
+// ruleContentCounters (C16): bookkeeping that Append maintains is maintained by every way rows get in.
+func ruleContentCounters(c *Ctx, p *core.Program, rule string) {
+	c.R.Rule(rule, "for every column struct of package proto: an unexported numeric field that an Append* method of the type assigns (a running count or offset kept beside the data) is also assigned by the type's DecodeColumn and Reset (directly or through a method of the type they call) - otherwise a column that was reset, decoded into and then appended to continues from a stale count: the offsets restart below the decoded ones, rows vanish and the encoded column is refused (no column keeps such a field today; a fixture keeps the recogniser alive)")
+	cfg := p.Cfg.Name
+	n, nt := 0, 0
+	for _, ct := range columnTypes(p) {
+		if _, ok := ct.Underlying().(*types.Struct); !ok {
+			continue
+		}
+		nt++
+		checked, gaps := contentCounterGaps(p, ct)
+		n += checked
+		for _, g := range gaps {
+			fn := methodOf(p, ct, g[0])
+			c.R.Bad(rule, ct.Obj().Name()+"."+g[0]+"/"+g[1], cfg, p.Pos(fn.Pos()), sprintf("%s keeps the numeric field %s up to date in %s but %s changes the rows without assigning it: an Append after a %s continues from the stale value", ct.Obj().Name(), g[1], g[2], g[0], g[0]))
+		}
+		if checked > 0 && len(gaps) == 0 {
+			c.R.Ok(rule, ct.Obj().Name(), cfg, p.Pos(ct.Obj().Pos()), "bookkeeping fields are maintained by DecodeColumn and Reset")
+		}
+	}
+	if n == 0 {
+		c.R.Ok(rule, "columns", cfg, "", sprintf("%d column structs examined, none keeps a numeric field beside its data in Append", nt)).Trivial = true
+	}
+	c.R.Count("column structs examined for bookkeeping fields["+cfg+"]", nt)
+	c.R.Floor(rule, cfg, nt, 10)
 }
